@@ -13,6 +13,9 @@ CLAIMED = {
  "C04": dict(technique="property-based metamorphic testing: content-preserving transforms and single content-changing edits against a reference relation computed from abstract content",
              text="Pairs and chains of documents are generated with a known ground truth (same abstract content built differently, or content differing by exactly one edit of 14 kinds, or independent tiny documents); ==, != (both argument orders), reflexivity, transitivity, bundle equality, all record pairs with hash agreement, and prov-compare's exit status are compared with the reference relation.",
              note="Trusted: the reference relation lossy() (the statement's own identifications: sets, numeric value, instants). prov-compare is run on a sample (subprocess).", ref="4 C04"),
+ "C05": dict(technique="property-based testing of call sequences against an intents model (entry-path metamorphic equality, refusal/no-op rule), with an enumerated kind x path x representation core",
+             text="Every record kind is created through every entry path with every representation of every formal argument (exhaustively for single records, randomly in sequences with add_attributes / set_time / add_asserted_type / re-adds); after each step every record must equal the path-independent model, hold single QualifiedName/datetime formal values, refuse a different second formal value with ProvException without changing, and ignore a repeated one.",
+             note="Trusted: the intents model; valid lexical forms only for native-typed literals. Sequences bounded to 8 ops after a fixed 9-op setup.", ref="4 C05"),
 }
 PENDING_REASON = "check not built yet in this round (design in DESIGN.md section 4); not claimed until the check exists and is quiet on the unchanged tree"
 checks = []
